@@ -569,7 +569,9 @@ fn render_stmts_in(stmts: &[St], rng: &mut Rng, files: &mut Vec<(String, Vec<u8>
 	let mut out = String::new();
 	for st in stmts
 	{
-		let sep = match rng.below(8) {0 => "\n", 1 => "\n\t", 2 => " // c\n", 3 => " /* c /* n */ */ ", 4 => "\r\n", _ => "\n"};
+		let sep = match rng.below(12) {0 => "\n", 1 => "\n\t", 2 => " // c\n", 3 => " /* c /* n */ */ ", 4 => "\r\n",
+			// nested comments whose inner end is directly followed by `*`, by another opening, `/*/`, `**/`; a line comment that ends in `*/`
+			5 => " /* a /* b */* c */ ", 6 => " /* /* x */ /* y */ */ // z */\n", 7 => " /* /*/ */ **/ ", 8 => "/* **/ // */\n", _ => "\n"};
 		let ws = |rng: &mut Rng| -> &'static str {match rng.below(6) {0 => "  ", 1 => "\t", 2 => " /*x*/ ", _ => " "}};
 		let line = match st
 		{
@@ -1297,6 +1299,20 @@ const INVALID: &[(&str, &str)] = &[
 	("duplicate", ".const d9, 1; .export d9; .const e9, 2; .global d9; .du8 e9;"),
 	("hex", ".dhex \"0g\";"),
 	("hex", ".dhex \"abc\";"),
+	("hex", ".dhex \"a\";"),
+	("hex", ".dhex \"abcde\";"),
+	("hex", ".dhex \"a\u{e9}\";"),
+	("hex", ".dhex \"0a5\u{20ac}\";"),
+	("hex", ".dhex \"\u{e9}\";"),
+	("hex", ".dhex \"0\u{e9}0\";"),
+	("hex", ".dhex \"a\u{1F600}b\";"),
+	("hex", ".dhex \"00 \u{e9}\u{e9} 11\";"),
+	("hex", ".dhex \"\u{ff10}\u{ff11}\";"),
+	("hex", ".dhex \"+f\";"),
+	("hex", ".dhex \"-1\";"),
+	("hex", ".dhex \"0f +f\";"),
+	("hex", ".dhex \"0x10\";"),
+	("hex", ".dhex \"f\\u{e9}\";"),
 	("file", ".dfile \"missing.bin\";"),
 	("file", ".include \"missing.asm\";"),
 	("parse", "MOVS R0 R1;"),
@@ -1486,6 +1502,10 @@ const SCENARIOS: &[(&str, &[(&str, &[u8])], Option<(&str, u32, u32, &str)>)] = &
 	("occupied-cursor", &[("main.asm", b".addr 0x110;\nNOP;\n.addr 0x108;\n.include \"fill.asm\";\n  .addr 0x110;\nx:\n"), ("fill.asm", b".du32 2;\n.du32 3;\n")], Some(("main.asm", 5, 3, "occupied.00000110"))),
 	("occupied-cursor", &[("main.asm", b".addr 0xFFFFFFFE;\n.du16 1;\n.addr 0xFFFFFFFF;\n")], Some(("main.asm", 3, 1, "occupied.ffffffff"))),
 	("occupied-cursor", &[("main.asm", b".addr 0xFFFFFFFF;\n.du8 1;\n.addr 0xFFFFFFFF;\n.addr 0x100;\nNOP;\n")], Some(("main.asm", 3, 1, "occupied.ffffffff"))),
+	// one file included by two siblings (diamond) and twice in a row: every occurrence is assembled
+	("same-file-twice", &[("main.asm", b".addr 0x100;\n.include \"b.asm\";\n.include \"c.asm\";\n"), ("b.asm", b".include \"common.asm\";\n.du8 K9;\n"), ("c.asm", b".include \"common.asm\";\n.du8 K9 + 1;\n"),
+		("common.asm", b".const K9, 7;\n.export K9;\nNOP;\n")], None),
+	("same-file-twice", &[("main.asm", b".addr 0x100;\n.include \"t.asm\";\n.include \"t.asm\";\n.include \"./t.asm\";\n"), ("t.asm", b"x9:\n.du32 x9;\n")], None),
 	// a name published twice across an include: the included file re-publishes a name the includer already owns
 	("duplicate-across-include", &[("main.asm", b".addr 0x100;\n.const x9, 1;\n.include \"c.asm\";\n.du8 x9;\n"), ("c.asm", b".const x9, 2;\n.global x9;\n")], Some(("c.asm", 2, 1, "duplicate"))),
 	("duplicate-across-include", &[("main.asm", b".addr 0x100;\n.const x9, 1;\n.include \"c.asm\";\n.du8 x9;\n"), ("c.asm", b".const x9, 2;\n.export x9;\n")], Some(("c.asm", 2, 1, "duplicate"))),
@@ -1965,6 +1985,63 @@ fn check_nested(cx: &mut Cx, seed: u64, dir: &std::path::Path)
 	check_asm_model(cx, &project, dir);
 }
 
+/// `>>` with a NEGATIVE left operand (`negshift <seed>`): label differences `lo - hi`, `0 - N`, masked; the shift is arithmetic (the sign
+/// is kept), before and behind the definitions of the labels
+fn check_negshift(cx: &mut Cx, seed: u64, dir: &std::path::Path)
+{
+	let mut rng = Rng::new(seed);
+	let input = format!("negshift {seed}");
+	let base = 0x2000_0000u32 + 4 * rng.below(64) as u32;
+	let n = 2 + rng.below(4) as usize;
+	let gap = 4 * (1 + rng.below(40)) as i64;   // hi - lo, a few statements of padding
+	let mut forms: Vec<(String, u32, i64)> = Vec::new();   // text, width, value before masking
+	for _ in 0..n
+	{
+		let k = *rng.pick(&[0i64, 1, 2, 3, 7, 31, 32, 60, 62, 63]);
+		let nn = 1 + rng.below(1 << 20) as i64;
+		forms.push(match rng.below(5)
+		{
+			0 => (format!("((lo - hi) >> {k}) & 0xFF"), 1, (-gap) >> k),
+			1 => (format!("((0 - {nn}) >> {k}) & 0xFFFF"), 2, (-nn) >> k),
+			2 => (format!("((lo - hi - {nn}) >> {k}) & 0xFFFFFFFF"), 4, (-gap - nn) >> k),
+			3 => (format!("(-{nn} >> {k}) & 0xFF"), 1, (-nn) >> k),
+			_ => (format!("(((lo - hi) * {nn}) >> {k}) & 0xFFFF"), 2, (-gap * nn) >> k),
+		});
+	}
+	let mut text = format!(".addr 0x{base:X};\n");
+	let mut want: Vec<u8> = Vec::new();
+	let emit = |text: &mut String, want: &mut Vec<u8>| for (e, w, v) in &forms
+	{
+		text.push_str(&format!(".du{} {e};\n", 8 * w));
+		let mask: i64 = match w {1 => 0xFF, 2 => 0xFFFF, _ => 0xFFFF_FFFF};
+		want.extend_from_slice(&((v & mask) as u64).to_le_bytes()[..*w as usize]);
+	};
+	emit(&mut text, &mut want);
+	text.push_str("lo:\n");
+	for _ in 0..gap / 4 {text.push_str(".du32 0x5A5A5A5A;\n"); want.extend_from_slice(&0x5A5A_5A5Au32.to_le_bytes());}
+	text.push_str("hi:\n");
+	emit(&mut text, &mut want);
+	let project = Project::single(text.as_bytes());
+	project.write(dir);
+	cx.report.hit("right shift of a negative left operand: program");
+	match run_real(dir)
+	{
+		Err(p) => {cx.report.case(Some("panic")); cx.report.oracle_fail(input, format!("panic: {p}"));},
+		Ok(o) =>
+		{
+			let got: Vec<u8> = o.image.iter().filter(|(a, _)| **a >= base).map(|(_, b)| *b).collect();
+			cx.report.case(Some(&hex(&got[..got.len().min(24)])));
+			if !(o.assemble_ok && o.close_err.is_none() && o.finalize && o.errors.is_empty()) {cx.report.oracle_fail(input.clone(), format!("refused: {:?}; program {text:?}", o.errors.iter().take(2).collect::<Vec<_>>()));}
+			else if got != want
+			{
+				let k = got.iter().zip(want.iter()).position(|(a, b)| a != b).unwrap_or(0);
+				cx.report.oracle_fail(input.clone(), format!("byte {k}: image {}, arithmetic shift gives {}; program {:?}", hex(&got[..got.len().min(40)]), hex(&want[..want.len().min(40)]), &text[..text.len().min(400)]));
+			}
+		},
+	}
+	check_asm_model(cx, &project, dir);
+}
+
 /// `.include` applied through `DirectiveList::process` on a fresh `Context` (no current file: the path is taken as it is
 /// when absolute): must behave as the same include written in a main file — same image, same success
 fn include_without_current_file(cx: &mut Cx, dir: &std::path::Path)
@@ -2161,6 +2238,7 @@ pub fn run(id: &str, cx: &mut Cx)
 			self_include(cx, &dir, rest.trim().parse().unwrap_or(1));
 			return;
 		}
+		if let Some(seed) = input.strip_prefix("negshift ").and_then(|x| x.trim().parse::<u64>().ok()) {check_negshift(cx, seed, &dir); return;}
 		if let Some(seed) = input.strip_prefix("nested ").and_then(|x| x.trim().parse::<u64>().ok()) {check_nested(cx, seed, &dir); return;}
 		if let Some(k) = input.strip_prefix("large ").and_then(|x| x.trim().parse::<usize>().ok()) {check_large(cx, id, k, &dir); return;}
 		if let Some(seed) = input.strip_prefix("dulist ").and_then(|x| x.trim().parse::<u64>().ok()) {check_du_list(cx, seed, &dir); return;}
@@ -2235,6 +2313,7 @@ non-trivial = non-empty image; distinct = distinct images".to_owned();
 			for k in 0..large_programs().len() {check_large(cx, id, k, &dir);}
 			for _ in 0..if cx.thorough() {3000} else {300} {let seed = cx.rng.next(); check_du_list(cx, seed, &dir);}
 			for _ in 0..if cx.thorough() {10_000} else {800} {let seed = cx.rng.next(); check_nested(cx, seed, &dir);}
+			for _ in 0..if cx.thorough() {3000} else {300} {let seed = cx.rng.next(); check_negshift(cx, seed, &dir);}
 			let n = if cx.thorough() {100_000} else {12_000};
 			let mut made = 0;
 			let mut tries = 0;
@@ -2299,6 +2378,20 @@ oracle = no panic; success xor (diagnostic with file/line/col or close error); i
 			{
 				check_c06(cx, &Project::single(text.as_bytes()), Expect::MustFail, "write-before-addr", &dir);
 			}
+			// every known mnemonic with suffix spam is an unknown mnemonic
+			for (mn, ops) in [("NOP", ""), ("WFI", ""), ("SEV", ""), ("YIELD", ""), ("UDF.W", " 1"), ("UDF.N", " 1"), ("ADDS", " R0, R1, R2"), ("MOVS", " R0, 1"), ("MOV", " R8, R0"), ("B", " 0x100"), ("BL", " 0x100"),
+				("BEQ", " 0x100"), ("BX", " LR"), ("LDR", " R0, [R1]"), ("STRB", " R0, [R1 + 1]"), ("PUSH", " {R0}"), ("POP", " {R1}"), ("SVC", " 1"), ("BKPT", " 1"), ("DMB", " SY"), ("MRS", " R0, PRIMASK"),
+				("CPSID", " i"), ("ADCS", " R0, R1"), ("LSLS", " R0, R1, 1"), ("CMP", " R0, 1"), ("ADR", " R0, 0x104"), ("SXTB", " R0, R1")]
+			{
+				for suf in [".n", ".N", ".n.n", ".w", ".W", ".w.n", "..n", ".", ".n.", ".n.n.n", ".N.n"]
+				{
+					for lower in [false, true]
+					{
+						let name = if lower {format!("{}{suf}", mn.to_lowercase())} else {format!("{mn}{suf}")};
+						check_c06(cx, &Project::single(format!(".addr 0x100;\n{name}{ops};\n").as_bytes()), Expect::MustFail, "mnemonic with suffix spam", &dir);
+					}
+				}
+			}
 			// constructs with a known position and message; multi-file scenarios; `.include` without a current file
 			for (class, text, line, col, fragment) in POSITIONED
 			{
@@ -2340,7 +2433,9 @@ oracle = no panic; success xor (diagnostic with file/line/col or close error); i
 					let mut p = gen.project.clone();
 					p.files[0].1 = m.into_bytes();
 					// a parse-class construct that lacks its terminator swallows what follows; anything is fine but it must fail
-					check_c06(cx, &p, Expect::MustFail, class, &dir);
+					// an unclosed block comment is closed by a `*/` that follows (the renderer writes line comments ending in `*/`): then anything is fine
+					let closed_later = text.contains("/*") && main[at..].contains("*/");
+					check_c06(cx, &p, if closed_later {Expect::Any} else {Expect::MustFail}, class, &dir);
 					if made <= 4 {cx.report.sample(format!("{class}: {text}"));}
 				}
 				else
@@ -2404,8 +2499,16 @@ oracle = no panic; success xor (diagnostic with file/line/col or close error); i
 					else if rng.chance(1, 6) {char::from_u32(rng.below(0x11_0000) as u32).unwrap_or('\u{fffd}').to_string()}
 					else {rng.pick(&chars).to_string()}
 				};
-				let text = match i % 4
+				let text = match if i % 9 == 8 {4} else {i % 4}
 				{
+					4 =>
+					{
+						// hex strings: digits, blanks, signs, non-ASCII characters of every width, odd lengths
+						let n = rng.below(9);
+						let body: String = (0..n).map(|_| match rng.below(8) {0 => rng.pick(&chars).to_string(), 1 => (*rng.pick(&["+", "-", " ", "\t", "x", "g", "\u{e9}", "\u{20ac}", "\u{1F600}", "\u{ff11}"])).to_owned(),
+							_ => char::from_digit(rng.below(16) as u32, 16).unwrap().to_string()}).collect();
+						format!(".addr 0x100;\n.dhex \"{}\";\n.du8 3;\n", body.replace('\\', "").replace('"', ""))
+					},
 					0 => format!(".addr 0x100;\n.du32 '{}';\n.du8 1;\n", if (i / 4) < chars.len() as u64 {chars[(i / 4) as usize].to_string()} else {piece(&mut rng)}),
 					1 => {let n = rng.below(5); let body: String = (0..n).map(|_| piece(&mut rng)).collect(); format!(".addr 0x100;\n.dstr \"{body}\";\n.du8 2;\n")},
 					2 => format!(".addr 0x100;\n.du32 '{}' + '{}';\n.dstr \"{}{}\";\n", piece(&mut rng), piece(&mut rng), piece(&mut rng), piece(&mut rng)),
